@@ -547,7 +547,7 @@ func (b *Builder) Any(o interface{}, ident string) *Any {
 		ident: ident,
 		// its own type object: one shared by every anydata of every module would be compiled
 		// (written) by whichever load met it first
-		dtype: newType("any"),
+		anyType: newType("any"),
 	}
 	if h, valid := b.parentDataDefinition(o, ident); valid {
 		x.parent = h
